@@ -683,6 +683,29 @@ def r_subgrid_strict(cx):
                   cx.where(t["span"]))
         elif dep[0]:
             outside += 1
+    # the rim search written as `base_grids.iter().find_map(|g| g.contains(coord, margin) ..)`: the margin is a capture
+    for cname in sorted(cx.f.lib["fns"]):
+        if not cname.startswith(name + "::{closure"):
+            continue
+        g = cx.f.fn(cname)
+        for bb, t in g.calls():
+            c = g.callee(t) or ""
+            if not c.endswith("::contains") or "BaseGrid" not in c + (t.get("callee_full") or ""):
+                continue
+            a = g.arg_terms(bb)
+            cap = _capture_index(a[2]) if len(a) > 2 else None
+            if cap is None:
+                continue
+            for pb, pt_ in f.calls():
+                for x in f.arg_terms(pb):
+                    if x[0] == "agg" and isinstance(x[1], tuple) and x[1] == ("closure", cname) and cap < len(x[2]):
+                        v = x[2][cap]
+                        if v[0] == "refplace" and not v[3]:
+                            v = f.local_value(v[2], f.end_point(pb))
+                        dep = [False]
+                        mir.walk(v, lambda y: (dep.__setitem__(0, True) if y[:2] == ("arg", 3) else None) or True)
+                        if dep[0] and f.innermost_loop(pb) is None:
+                            outside += 1
     cx.ob("R-SUBGRID-STRICT", "rim", outside > 0,
           "after the walk, the base grids are tried with the caller's margin" if outside else
           "find_grid never tests containment with the caller's margin: the half-cell margin outside the file's coverage "
